@@ -504,6 +504,14 @@ class Cluster(object):
         c = dict(voters=list(self.nids), ro=[], period=10, tmin=40, tspan=128, fallback=300, batch=100000, chunk=100000)
         c.update(cfg or {})
         self.sim = (CustomDumpSim if custom else SIM.Sim)(c, workdir)
+        base_conf_for = self.sim.conf_for
+
+        def conf_for(nid):
+            cf = base_conf_for(nid)
+            cf.onCodeVersionChanged = lambda old, new, nid=nid: self._on_version_changed(nid, old, new)
+            return cf
+        self.sim.conf_for = conf_for
+        self.version_callbacks = []       # (nid, old, new)
         self.log = capture_logs()
         self.t = 0
         self.rnd = dict((n, 10 * (i + 1)) for i, n in enumerate(rnd_order or self.nids))
@@ -532,6 +540,31 @@ class Cluster(object):
             for b in self.nids:
                 if a != b:
                     self.sim.apply(('connect', a, b))
+
+    def _on_version_changed(self, nid, old, new):
+        """conf.onCodeVersionChanged: whenever the application is told about a switch, what it sees is consistent - the
+        enabled version is the announced one and every call it would make now resolves to the newest implementation not
+        above it (the name table is rebuilt before the application hears of the switch)"""
+        self.version_callbacks.append((nid, old, new))
+        self.count('version_callbacks')
+        obj = self.sim.nodes.get(nid)
+        if obj is None:
+            return
+        en = obj.getCodeVersion()
+        if en != new:
+            self.problems.append('onCodeVersionChanged(%d, %d) on node %d while getCodeVersion() is %d' % (old, new, nid, en))
+        for o, nm in shape_keys(self.codes[1]['shape']):
+            target = obj if o == 0 else obj.cons[o - 1]
+            try:
+                a = obj._getFuncName(nm if o == 0 else (id(target), nm))
+            except KeyError:
+                a = None
+            ev = expected_version(self.shape(nid), o, nm, en)
+            want = None if ev is None else '%s_v%d' % (nm, ev)
+            if a != want:
+                self.problems.append('inside onCodeVersionChanged(%d, %d) on node %d: %s of owner %d resolves to %r, the newest '
+                                     'version not above %d is %r' % (old, new, nid, nm, o, a, en, want))
+                break
 
     # -- bookkeeping -----------------------------------------------------------------------------
     def ix(self, nid):
